@@ -214,7 +214,7 @@ func appendedToIEList(p *core.Pather, arr ssa.Value) bool {
 }
 
 func c13(c *core.Ctx) map[string]interface{} {
-	c.Explanation = "Static builder-discipline and parameter-flow check of the gNB-side NGAP builders (C13). Decided: (R0.nilglobal) as for C03; (R13.triple) in every IE segment of every Build* function the IE id constant, the Present constant and the allocated alternative name the same IE of that message's IE set, the alternative's referenceFieldValue equals the id (with R3.tag), and the segment is appended to the message; (R13.class) pdu.Present, the allocated outcome, the procedure code, Value.Present and the allocated message agree with each other and with the elementary-procedure table of TS 38.413 9.4.4 (code, class, criticality); (R13.wrap) for the build-and-encode wrappers of tglib/packet.go: the wrapper hands its parameters to the builder in order and returns ngap.Encoder's result unchanged, the builder stores each identifier parameter unconverted in the IE of its role (AMF-UE-NGAP-ID, RAN-UE-NGAP-ID, NAS-PDU, PDUSessionID, gNB id/length/name, transport address via IPAddressToNgap) and nowhere else; (R13.ie) the messages main sends contain every mandatory IE of TS 38.413 9.2 exactly once with the tabulated criticality; (R13.plmn) PLMN identities in the builders behind the wrappers come from TestPlmn (the PLMN announced at NG Setup) - the hard-coded PLMN of BuildHandoverNotify is a listed known finding. (R13.pure) the builders and wrappers compute from their arguments and from TestPlmn (written only by BuildNGSetupRequest) alone: no other package-level cache, skeleton or scratch state is reachable from them, so the values found in an encoding are those of this call and not of an earlier one. NOT decided: that encoding succeeds for every in-range argument (C03); PLMNs of builders no wrapper uses. (components) the rule set of C03 (APER encoder) is run as part of this check: the arguments are found in the encoding only if the encoder is right."
+	c.Explanation = "Static builder-discipline and parameter-flow check of the gNB-side NGAP builders (C13). Decided: (R0.nilglobal) as for C03; (R13.triple) in every IE segment of every Build* function the IE id constant, the Present constant and the allocated alternative name the same IE of that message's IE set, the alternative's referenceFieldValue equals the id (with R3.tag), and the segment is appended to the message; (R13.class) pdu.Present, the allocated outcome, the procedure code, Value.Present and the allocated message agree with each other and with the elementary-procedure table of TS 38.413 9.4.4 (code, class, criticality); (R13.wrap) for the build-and-encode wrappers of tglib/packet.go: the wrapper hands its parameters to the builder in order and returns ngap.Encoder's result unchanged, the builder stores each identifier parameter unconverted in the IE of its role (AMF-UE-NGAP-ID, RAN-UE-NGAP-ID, NAS-PDU, PDUSessionID, gNB id/length/name, transport address via IPAddressToNgap) and nowhere else; (R13.ie) the messages main sends contain every mandatory IE of TS 38.413 9.2 exactly once with the tabulated criticality; (R13.plmn) PLMN identities in the builders behind the wrappers come from TestPlmn (the PLMN announced at NG Setup) - the hard-coded PLMN of BuildHandoverNotify is a listed known finding. (R13.pure) the builders and wrappers compute from their arguments and from TestPlmn (written only by BuildNGSetupRequest) alone: no other package-level cache, skeleton or scratch state is reachable from them, so the values found in an encoding are those of this call and not of an earlier one. (R11.plmn, shared with C11) BuildNGSetupRequest remembers the caller's PLMN in TestPlmn and every PLMN field of the NG Setup Request is TestPlmn. NOT decided: that encoding succeeds for every in-range argument (C03); PLMNs of builders no wrapper uses. (components) the rule set of C03 (APER encoder) is run as part of this check: the arguments are found in the encoding only if the encoder is right."
 	c.Assumptions = []string{"TS 38.413 9.2 IE tables for the 7 messages main sends were transcribed by hand"}
 	r0nilglobal(c, ngapEntries(c)...)
 	s := buildSchema(c)
@@ -238,6 +238,8 @@ func c13(c *core.Ctx) map[string]interface{} {
 	r13wrap(c, models)
 	r13ie(c, models)
 	r13plmn(c, models)
+	// "the PLMN being the one announced at NG Setup": how BuildNGSetupRequest remembers it (shared with C11)
+	r11plmn(c)
 	r13ip(c)
 	r13range(c)
 	r13pure(c)
